@@ -24,6 +24,17 @@ type C07BlankOp struct {
 	Ctx     string   `json:"ctx"`  // live | deadline
 	Hold    string   `json:"hold"` // "" | verify | reply : park the monitor there until the caller's deadline has passed
 	Watcher bool     `json:"watcher,omitempty"`
+	// SameSrc: the call passes the SAME source object as the previous call,
+	// whose data has changed meanwhile (a caller refreshing a static source)
+	SameSrc bool `json:"same_src,omitempty"`
+}
+
+// simMutSource is a static source whose data can be swapped between two
+// SetSource calls with the same object.
+type simMutSource struct{ l SimLayer }
+
+func (m *simMutSource) Value(_ context.Context, t *dials.Type) (reflect.Value, error) {
+	return m.l.Value(t.Type()), nil
 }
 
 type C07BlankCase struct {
@@ -33,6 +44,10 @@ type C07BlankCase struct {
 	Wrap      int          `json:"wrap"`       // 0: bare Blank; 1: Blank inside a transforming source without manglers; 2: with a (type-preserving here) set->slice mangler
 	Ops       []C07BlankOp `json:"ops"`
 	DoneAfter bool         `json:"done_after,omitempty"` // finish with Blank.Done under a 1h deadline
+	// CancelCfgAtLast: while the monitor is parked handling the LAST call, the
+	// Config context is cancelled; the caller (whose own context lives on) must
+	// still get the answer for the report the monitor had already accepted
+	CancelCfgAtLast bool `json:"cancel_cfg_at_last,omitempty"`
 	BadWatcherAt int       `json:"bad_watcher_at,omitempty"` // 1-based: before that op the Blank is given a WATCHING source whose Value fails; the failed call must leave nothing behind
 	Reuse     bool         `json:"reuse,omitempty"` // the same Blank is (wrongly) handed to a second Config, which must refuse it without disturbing the first Dials
 	DoneFirst bool         `json:"done_first,omitempty"` // Blank.Done is called before the SetSource calls (the monitor lives on iff there is another watcher)
@@ -57,11 +72,18 @@ func genC07Blank(t *rapid.T) C07BlankCase {
 		if gone {
 			op.Ctx = "deadline"
 		}
+		op.SameSrc = i > 0 && rapid.IntRange(0, 2).Draw(t, "same_src") == 0
 		c.Ops = append(c.Ops, op)
 	}
 	// the last call may hand the Blank a WATCHING inner source (afterwards the
 	// Blank refuses replacements, so only the last one)
 	c.Ops[len(c.Ops)-1].Watcher = rapid.Bool().Draw(t, "last_is_watcher")
+	if !gone && rapid.IntRange(0, 3).Draw(t, "cancel_cfg_at_last") == 0 {
+		c.CancelCfgAtLast = true
+		last := &c.Ops[len(c.Ops)-1]
+		last.Ctx = "live"
+		last.Hold = rapid.SampledFrom([]string{"verify", "reply"}).Draw(t, "cancel_hold")
+	}
 	c.DoneAfter = rapid.Bool().Draw(t, "done_after")
 	return c
 }
@@ -78,7 +100,7 @@ func runC07Blank(c C07BlankCase) (verdict vrt.Verdict) {
 			verdict = vrt.KeyedViolationf("panic", "panic / synctest failure (a SetSource that outlives its context leaves the bubble deadlocked): %v", p)
 		}
 	}()
-	heldCount, rejected := 0, 0
+	heldCount, rejected, sameSrcCalls := 0, 0, 0
 	synctest.Test(curT, func(st *testing.T) {
 		cfgCtx, cfgCancel := context.WithCancel(context.Background())
 		r := &run{}
@@ -143,6 +165,9 @@ func runC07Blank(c C07BlankCase) (verdict vrt.Verdict) {
 			gone = !c.Other
 		}
 		var cur SimLayer
+		var prevSrc *simMutSource
+		var lastInner *fake.Watcher
+		cfgCancelled := false
 		for i := range c.Ops {
 			op := &c.Ops[i]
 			if c.BadWatcherAt == i+1 {
@@ -157,9 +182,19 @@ func runC07Blank(c C07BlankCase) (verdict vrt.Verdict) {
 			}
 			step := fmt.Sprintf("op %d (ctx=%s hold=%q watching inner=%v)", i, op.Ctx, op.Hold, op.Watcher && i == len(c.Ops)-1)
 			l := op.L
-			var src dials.Source = &fake.Static{Mk: func(t *dials.Type) reflect.Value { return l.Value(t.Type()) }}
-			if op.Watcher && i == len(c.Ops)-1 {
-				src = &fake.Watcher{Mk: func(t *dials.Type) reflect.Value { return l.Value(t.Type()) }}
+			var src dials.Source
+			var innerW *fake.Watcher
+			switch {
+			case op.Watcher && i == len(c.Ops)-1:
+				innerW = &fake.Watcher{Mk: func(t *dials.Type) reflect.Value { return l.Value(t.Type()) }}
+				src = innerW
+			case op.SameSrc && prevSrc != nil:
+				prevSrc.l = l // same object, new data: the Blank has to ask it again
+				src = prevSrc
+				sameSrcCalls++
+			default:
+				prevSrc = &simMutSource{l: l}
+				src = prevSrc
 			}
 			st := Stack(defaults, []SimLayer{{}, l})
 			valid := st.Limit >= 0
@@ -194,7 +229,35 @@ func runC07Blank(c C07BlankCase) (verdict vrt.Verdict) {
 				held = r.heldNow
 				r.mu.Unlock()
 			}
-			if held {
+			if held && c.CancelCfgAtLast && i == len(c.Ops)-1 && op.Ctx == "live" {
+				heldCount++
+				cfgCancelled = true
+				// the Dials context ends while the monitor is in the middle of this report;
+				// the caller's own context lives on, so the only way out is the monitor's answer
+				cfgCancel()
+				synctest.Wait()
+				close(holdCh)
+				synctest.Wait()
+				select {
+				case <-done:
+				default:
+					fail("%s: the Config context was cancelled while the monitor was handling this report; the caller (own context still live) was never answered", step)
+					cancel()
+					return
+				}
+				if valid && serr != nil {
+					fail("%s: the monitor had accepted the report before the Config context ended, verification passes, but SetSource returned %v", step, serr)
+					return
+				}
+				if !valid && !errors.Is(serr, ErrInvalid) {
+					fail("%s: the monitor had accepted the report before the Config context ended and the stack does not verify, but SetSource returned %v, want the verifier's error", step, serr)
+					return
+				}
+				if valid {
+					cur = l
+				}
+				gone = true
+			} else if held {
 				heldCount++
 				// the monitor is parked; the only thing that can happen is the caller's deadline
 				select {
@@ -258,6 +321,17 @@ func runC07Blank(c C07BlankCase) (verdict vrt.Verdict) {
 					}
 				}
 			}
+			if innerW != nil && serr == nil && innerW.Ctx != nil {
+				// the inner watcher lives exactly as long as the Dials: not shorter
+				// (the SetSource call's context ends now), not longer (checked at the end)
+				cancel()
+				synctest.Wait()
+				if innerW.Ctx.Err() != nil && !gone && !cfgCancelled {
+					fail("%s: the inner watcher's context ended with the SetSource call although the Dials is still running: later updates from it would be lost", step)
+					return
+				}
+				lastInner = innerW
+			}
 			cancel()
 			want := Stack(defaults, []SimLayer{{}, cur})
 			got := d.View()
@@ -285,18 +359,25 @@ func runC07Blank(c C07BlankCase) (verdict vrt.Verdict) {
 				fail("Blank.Done after the SetSource calls did not return within two hours although its context had a 1h deadline")
 			}
 		}
+		if lastInner != nil && msg == "" {
+			cfgCancel()
+			synctest.Wait()
+			if lastInner.Ctx.Err() == nil {
+				fail("after the Config context was cancelled the inner watcher the Blank started is still running (its context is still live)")
+			}
+		}
 	})
 	if msg != "" {
 		return vrt.KeyedViolationf("blank", "%s", msg)
 	}
-	return vrt.OK(heldCount > 0 || c.ExitFirst || c.DoneFirst || rejected > 0, fmt.Sprintf("held=%d", min(heldCount, 3)), fmt.Sprintf("exit_first=%v", c.ExitFirst), fmt.Sprintf("done_first=%v", c.DoneFirst), fmt.Sprintf("reuse=%v", c.Reuse), fmt.Sprintf("bad_watcher=%v", c.BadWatcherAt > 0 && c.BadWatcherAt <= len(c.Ops)), fmt.Sprintf("wrap=%d", c.Wrap))
+	return vrt.OK(heldCount > 0 || c.ExitFirst || c.DoneFirst || rejected > 0, fmt.Sprintf("held=%d", min(heldCount, 3)), fmt.Sprintf("exit_first=%v", c.ExitFirst), fmt.Sprintf("done_first=%v", c.DoneFirst), fmt.Sprintf("reuse=%v", c.Reuse), fmt.Sprintf("same-source-again=%v", sameSrcCalls > 0), fmt.Sprintf("bad_watcher=%v", c.BadWatcherAt > 0 && c.BadWatcherAt <= len(c.Ops)), fmt.Sprintf("wrap=%d", c.Wrap))
 }
 
 func TestC08Blank(t *testing.T) {
 	curT = t
 	vrt.Check(t, vrt.Prop[C07BlankCase]{
 		ID: "C08", Name: "blank",
-		Rule: "the histories of C07/blank (1..5 Blank.SetSource calls with live or 1h-deadline contexts against a free, parked or exited monitor, values that verify or not), optionally after a second Config was (wrongly) handed the same Blank and refused it, optionally with a failed SetSource of a watching source whose Value errors in between (it must leave nothing behind), optionally preceded by Blank.Done (the Blank gave up its watch slot; the monitor lives on iff another watcher exists) and optionally finished by Blank.Done under a 1h deadline; " +
+		Rule: "the histories of C07/blank (1..5 Blank.SetSource calls with live or 1h-deadline contexts against a free, parked or exited monitor, values that verify or not), optionally after a second Config was (wrongly) handed the same Blank and refused it, optionally with a failed SetSource of a watching source whose Value errors in between (it must leave nothing behind), optionally with the Config context cancelled while the monitor is parked on the last call (whose caller's context lives on and must still be answered), optionally preceded by Blank.Done (the Blank gave up its watch slot; the monitor lives on iff another watcher exists) and optionally finished by Blank.Done under a 1h deadline; " +
 			"oracle (C08's clauses): every call returns no later than its own context ends (virtual time), also the calls issued after an earlier call failed, timed out or the monitor exited (a leaked Blank mutex or a missing answer leaves the bubble deadlocked), nothing panics; " +
 			"non-trivial = a call that met a parked or exited monitor, or a rejected value; distinct = distinct case JSON",
 		Assumptions: []string{"SetSource is called after Config, as documented"},
@@ -308,7 +389,7 @@ func TestC07Blank(t *testing.T) {
 	curT = t
 	vrt.Check(t, vrt.Prop[C07BlankCase]{
 		ID: "C07", Name: "blank",
-		Rule: "1..5 Blank.SetSource calls (inner sources static; the last one static or watching) on a Blank inside a real Dials (bare, or wrapped in a transforming source; optionally next to another watcher), with a live context or a 1h virtual-time deadline, while the monitor is free, parked inside Verify or right before it answers (until the caller's deadline has passed), or already gone; " +
+		Rule: "1..5 Blank.SetSource calls (inner sources static, sometimes the SAME object as in the previous call with new data; the last one static or watching, and a watching one must live exactly as long as the Dials) on a Blank inside a real Dials (bare, or wrapped in a transforming source; optionally next to another watcher), with a live context or a 1h virtual-time deadline, while the monitor is free, parked inside Verify or right before it answers (until the caller's deadline has passed), or already gone; " +
 			"oracle: nil => the view holds the value; a value whose stack does not verify => the verifier's error and an unchanged view; the caller's context ending first => SetSource returns a context error no later than its own deadline (virtual time), the monitor then finishes on its own and the Blank stays usable (its mutex is released); " +
 			"non-trivial = a call that met a parked or exited monitor, or a rejected value; distinct = distinct case JSON",
 		Assumptions: []string{"SetSource is called after Config, as documented"},
